@@ -43,6 +43,7 @@ type GhostVar struct {
 	Name string
 	Type string // int | bool
 	Init CExpr
+	Iter bool // reset to its initial value at every loop head (iteration-local)
 }
 
 type Contract struct {
@@ -51,6 +52,7 @@ type Contract struct {
 	File     string
 	Line     int
 	Requires []Clause
+	Assumes  []Clause // environment assumptions (plan/object invariants): assumed at entry, NOT checked at call sites, listed in the evidence
 	Ensures  []Clause
 	Modifies []CExpr
 	ModAll   bool // "modifies *" or no modifies clause at all
@@ -106,7 +108,7 @@ func newContractSet() *ContractSet {
 }
 
 var clauseKeywords = map[string]bool{
-	"requires": true, "ensures": true, "modifies": true, "arith": true, "safety": true, "loop": true,
+	"requires": true, "ensures": true, "assumes": true, "modifies": true, "arith": true, "safety": true, "loop": true,
 	"invariant": true, "decreases": true, "let": true, "pure": true, "trusted": true, "emits": true,
 	"at": true, "maydiverge": true, "ghost": true, "fresh": true, "params": true, "holds": true,
 	"acquires": true, "releases": true,
@@ -224,6 +226,13 @@ func (cs *ContractSet) parseContractFile(path, pkgPath string, external bool) er
 			}
 			cur.Raw = append(cur.Raw, l.text)
 			switch kw {
+			case "assumes":
+				label, src := splitLabel(rest)
+				e, err := parseCExpr(src)
+				if err != nil {
+					return fail(l, "%v", err)
+				}
+				cur.Assumes = append(cur.Assumes, Clause{Label: label, Src: src, Expr: e})
 			case "requires", "ensures", "invariant":
 				label, src := splitLabel(rest)
 				e, err := parseCExpr(src)
@@ -349,6 +358,11 @@ func (cs *ContractSet) parseContractFile(path, pkgPath string, external bool) er
 				}
 			case "ghost":
 				// ghost var name type = expr
+				iter := false
+				if strings.HasPrefix(rest, "itervar") {
+					iter = true
+					rest = "var" + strings.TrimPrefix(rest, "itervar")
+				}
 				m := regexp.MustCompile(`^var\s+(\w+)\s+([\w.*\[\]]+)\s*=\s*(.*)$`).FindStringSubmatch(rest)
 				if m == nil {
 					return fail(l, "bad ghost declaration")
@@ -357,7 +371,7 @@ func (cs *ContractSet) parseContractFile(path, pkgPath string, external bool) er
 				if err != nil {
 					return fail(l, "%v", err)
 				}
-				cur.Ghosts = append(cur.Ghosts, GhostVar{m[1], m[2], e})
+				cur.Ghosts = append(cur.Ghosts, GhostVar{Name: m[1], Type: m[2], Init: e, Iter: iter})
 			case "at":
 				// at call <callee-substring>: assert {label} expr
 				// at call <callee-substring>: ghost name = expr
